@@ -48,6 +48,7 @@ def main():
         with open(a.file) as f:
             d = json.load(f)
         module, call = d["module"], d["call"]
+        os.environ.update({k: str(v) for k, v in (d.get("env") or {}).items()})
     else:
         module, call = a.module, a.call
     try:
